@@ -66,7 +66,7 @@ def run(ctx):
     ctx.assumptions += ['PARTIAL: numerical equality of float32 computations is checked differentially (1e-4), not proved',
                         'PyTorch kernels act lane-wise along the batch dimension (linear, bmm, softmax, LayerNorm)']
     reqs, impl = [], []
-    n = 16 if ctx.quick() else 90
+    n = 16 if ctx.quick() else 40
     for it in range(n):
         net, cfg = build_model(rng, torch, transformer)
         eng = make_engine(net, cfg['classes'])
